@@ -118,6 +118,12 @@ def check_prims(ctx, rep):
             return c
         cmp("pop", l, _res(model.call("prim_seq", [10, l, [], []])), _py(pop))
         cmp("enumerate", l, model.call("prim_seq", [11, l, [], []]), [list(x) for x in enumerate(l)])
+        if "gen_Folder_retrieve" in vlib.fn_table():      # entries of the third wave present
+            for x in (0, 1, 2, 255, -1, 7):
+                cmp("int in list/set", (x, l), model.call("prim_seq", [12, l, [x], []]), 1 if x in set(l) else 0)
+            cmp("sum", l, model.call("prim_seq", [13, l, [], []]), sum(l))
+            it = iter(l)
+            cmp("next(iter)", l, _res(model.call("prim_seq", [14, l, [], []])), _py(lambda: [next(it), list(it)]) if l else ERR)
     for ln in (0, 3, 4, 5, 7, 8, 9):
         l = [rng.randrange(256) for _ in range(ln)]
         cmp("unpack('<L')", l, _res(model.call("prim_seq", [5, l, [], []])), _py(lambda: struct.unpack("<L", bytes(l))[0]))
@@ -129,6 +135,8 @@ def check_prims(ctx, rep):
             from functools import reduce
             cmp("reduce(and_)", (bits, init), model.call("prim_bools", [0, init, bits]), 1 if reduce(operator.and_, bits, init) else 0)
             cmp("reduce(or_)", (bits, init), model.call("prim_bools", [1, init, bits]), 1 if reduce(operator.or_, bits, init) else 0)
+        if "gen_Folder_retrieve" in vlib.fn_table():      # entries of the third wave present
+            cmp("list.count(True)", bits, model.call("prim_bools", [2, False, bits]), bits.count(True))
     # ---------------- str
     alpha = ["", "/", ".", "./", "..", "a", "a/", "/a", "./a", ".//", "a./", "//", "x/y/", "é/", "/\U00010000"]
     for s, p in itertools.product(alpha, alpha):
